@@ -84,6 +84,11 @@ func (db *Database) VerifFuzzy(query string, options SearchOptions) []SearchResu
 	return db.performFuzzySearch(query, options)
 }
 
+// VerifLegacyScore exposes calculateScore, the per-command scorer of the scan searches (SearchWithPipelineOptions).
+func VerifLegacyScore(c *Command, words []string, boosts map[string]float64) float64 {
+	return calculateScore(c, words, boosts)
+}
+
 // VerifIndexOf returns the position of a result's command in db.Commands (-1 if it is not one of them).
 func (db *Database) VerifIndexOf(c *Command) int {
 	for i := range db.Commands {
